@@ -122,7 +122,7 @@ def _run_chunk(args):
     rest = list(lines)
     while rest:
         try:
-            p = subprocess.run([exe] + extra, input=('\n'.join(rest) + '\n').encode(), stdout=subprocess.PIPE, stderr=subprocess.PIPE, timeout=timeout)
+            p = subprocess.run([exe] + extra, input=('\n'.join(rest) + '\n').encode(), stdout=subprocess.PIPE, stderr=subprocess.PIPE, timeout=timeout, preexec_fn=_big_stack)
             o = p.stdout.decode('utf-8', 'replace').split('\n'); prc = p.returncode; perr = p.stderr.decode('utf-8', 'replace')
         except subprocess.TimeoutExpired as e:
             o = (e.stdout or b'').decode('utf-8', 'replace').split('\n'); prc = -999; perr = 'TIMEOUT after %ds' % timeout
@@ -142,6 +142,15 @@ def _run_chunk(args):
             rest = []
         rc = prc; err = perr
     return rc, out, err
+
+def _big_stack():
+    """the extracted model recurses on lists: give the runner processes the largest stack the system allows (a megabyte-long hash input
+    otherwise ends in Stack_overflow, which the driver reports as #-97)"""
+    try:
+        import resource
+        soft, hard = resource.getrlimit(resource.RLIMIT_STACK)
+        resource.setrlimit(resource.RLIMIT_STACK, (hard, hard))
+    except Exception: pass
 
 def run_cases(exe, lines, extra=(), shards=None, timeout=3000):
     """run a driver over case lines, sharded over processes; returns list of result lines.
@@ -248,7 +257,7 @@ class Check:
         for (line, cls), a, b in zip(cases, ri, rm):
             self.evaluations += 1
             self.classes[cls] = self.classes.get(cls, 0) + 1
-            if b.startswith('#-99'):
+            if b.startswith('#-99') or b.startswith('#-97'):      # out of fuel / the model runner ran out of stack or memory: no verdict, counted
                 self.abstain += 1; continue
             triv = (nontrivial(line, a, b) if nontrivial else True)
             if triv: self.distinct.add(hashlib.sha256((line + '|' + a).encode()).digest()[:12])
@@ -336,7 +345,7 @@ class Check:
 # ---------------------------------------------------------------- shrinking
 def _differs(line, impl, model, ie, me):
     a = run_cases(impl, [line], ie, 1)[0]; b = run_cases(model, [line], me, 1)[0]
-    return (a != b and not b.startswith('#-99')), a, b
+    return (a != b and not b.startswith('#-99') and not b.startswith('#-97')), a, b
 
 def shrink(line, impl, model, ie, me, a, b, budget=60):
     """greedy field simplification while the disagreement persists"""
